@@ -518,6 +518,8 @@ impl Driver {
         self.with_events(|this, events| {
             for event in events.iter() {
                 trace!("receive {} for {:?}", event.key, event);
+                #[cfg(compio_verif)]
+                crate::verif::emit(crate::verif::POLL_EVENT, event.key as u64, 0);
                 // SAFETY: user_data is promised to be valid.
                 let key = unsafe { BorrowedKey::from_raw(event.key) };
                 let mut op = key.borrow();
